@@ -1,10 +1,72 @@
 /-
-C11 — property theorems (statements only; proofs in Proofs*.lean).
+C11 — property theorems (proofs of the invariants are in Proofs*.lean).
+
+The model (Model.lean) is a small-step transition system with one row per atomic action of
+periodicalexecutor.go, for ANY number of goroutines; `Reachable cfg s` quantifies over every schedule of
+Add / Flush / Wait callers, background flushers that quit when idle and are restarted, ticker ticks, clock
+advances, and callbacks that return or panic.  `cfg.full` (the container's threshold test) is arbitrary,
+so bulk (count ≥ max) and chunk (bytes ≥ max) executors are instances.
 -/
-import GoZero.C11.Model
+import GoZero.C11.Proofs
+import GoZero.C11.ProofsWait
 namespace GoZero.C11
 
-/-- placeholder of stage 1: the initial configuration has added nothing -/
-theorem init_added (n : Nat) : (init n).added = [] := rfl
+/-- tasks in the hands of goroutines (taken out of the container / commander, callback not ended yet) -/
+def inHands (x : Task) (s : St) : Nat := ((s.thr.map fun th => th.reg.count x)).sum
+/-- tasks in the commander channel's buffer -/
+def inCommander (x : Task) (s : St) : Nat := match s.commander with | some b => b.count x | none => 0
+
+/-- **No loss, no duplication** (multiset conservation), for every schedule and any number of goroutines:
+every task accepted by `AddTask` is in exactly one of: the container, the commander buffer, the hands of one
+goroutine (producer handing over, flusher, `Flush`/`Wait` caller — before or inside the callback), or the
+multiset of tasks whose callback has ended. In particular a task reaches the callback at most once, and is
+never dropped — across threshold hand-overs, periodic flushes, explicit flushes, flusher quit and restart. -/
+theorem no_loss_no_dup (cfg : Cfg) (s : St) (h : Reachable cfg s) (x : Task) :
+    s.added.count x = s.container.count x + inCommander x s + inHands x s + s.finished.count x :=
+  (inv_reachable h).cons x
+
+/-- a goroutine holds tasks only between taking a batch and the end of its callback -/
+theorem hands_empty_outside_execution (cfg : Cfg) (s : St) (h : Reachable cfg s) (t : Nat) (th : Thread)
+    (ht : s.thr[t]? = some th) (hp : holds th.pc = false) : th.reg = [] :=
+  (inv_reachable h).empty t th ht hp
+
+/-- **Exactly once at rest**: when nothing is pending (container and commander empty, nobody holds a batch),
+the tasks whose callback ended are a permutation of the tasks added. -/
+theorem exactly_once_at_rest (cfg : Cfg) (s : St) (h : Reachable cfg s) (hc : s.container = [])
+    (hcmd : s.commander = none) (hh : ∀ (t : Nat) (th : Thread), s.thr[t]? = some th → th.reg = []) :
+    s.finished.Perm s.added := by
+  rw [List.perm_iff_count]
+  intro x
+  have := no_loss_no_dup cfg s h x
+  have h0 : inHands x s = 0 := by
+    unfold inHands
+    have : ∀ l : List Thread, (∀ th ∈ l, th.reg = []) → (l.map fun th => th.reg.count x).sum = 0 := by
+      intro l hl
+      induction l with
+      | nil => rfl
+      | cons a l ih => simp [hl a (by simp), ih (fun th hth => hl th (by simp [hth]))]
+    apply this
+    intro th hth
+    obtain ⟨t, ht, rfl⟩ := List.getElem_of_mem hth
+    exact hh t _ (by simp [ht])
+  simp [hc, inCommander, hcmd, h0] at this
+  omega
+
+/-- **A panicking callback loses only its own batch**: a callback that panics is, for everybody else,
+the same step as a callback that returns — same container, commander, counters and goroutine states
+(`RunSafe` recovers, the deferred `wg.Done` still runs next); only the ghost `lost` records the batch. -/
+theorem panic_loses_own_batch_only (cfg : Cfg) (s s' : St) (t : Nat)
+    (h : step cfg s t (.cbEnd true) = some s') :
+    step cfg s t (.cbEnd false) = some { s' with lost := s.lost } ∧
+    ∃ th, s.thr[t]? = some th ∧ s'.lost = s.lost ++ th.reg ∧ s'.finished = s.finished ++ th.reg := by
+  unfold step at h ⊢
+  simp only at h ⊢
+  split at h
+  · simp at h
+  · rename_i th hth
+    simp only [hth]
+    unfold stepTh at h ⊢
+    split at h <;> simp_all [St.upd]
+    all_goals (subst h; simp)
 
 end GoZero.C11
